@@ -30,6 +30,7 @@ import warnings
 
 from sim import aioloop as A
 from sim.adata import Events, PrivateAbort, PrivateFault, make_async_data
+from sim.envs import clear_process_caches
 from sim.core import Outcome, digest, exc_key
 from sim.envs import AE_MODES, CodeMemo
 from sim.tape import Tape, run_seed
@@ -87,6 +88,7 @@ def _kind(co_name: str) -> str:
 
 def run(tape: Tape) -> Outcome:
     setup()
+    clear_process_caches()  # a run must not depend on the runs before it in this worker
     import jinja2
 
     out = Outcome()
